@@ -60,10 +60,28 @@ def _nat_new_data(stub):
     return s
 
 
+def _native_data_class(name, source, log, fields):
+    """a real class for the replay: inspect.signature / inspect.isabstract are the real ones"""
+    import abc
+    from pyvc.native import Stub
+    from pyvc.kinds import Int as KInt, Bool as KBool
+    n = source(f'{name}.__sig_len__', KInt)
+    n = 0 if n is None or n < 0 else min(n, 3)
+    is_abs = bool(source(f'{name}.__isabstract__', KBool))
+    params = ''.join(f', p{i}' for i in range(n))
+    ns = {'Stub': Stub, 'DataIface': DataIface, 'source': source, 'log': log}
+    exec(f"def __new__(cls{params}):\n    log.append(('__call__', (), None, 'ret'))\n    return Stub(DataIface, 'data', source, log, {{'persisting': False}})", ns)
+    body = {'__new__': ns['__new__']}
+    if is_abs:
+        body['_abstract_marker'] = abc.abstractmethod(lambda self: None)
+    return abc.ABCMeta('ReplayDataClass', (), body)
+
+
 DataClassIface = Iface(
     'DataClassIface',
     props={'__sig_len__': Prop(Int), '__isabstract__': Prop(Bool)},
-    methods={'__call__': Meth(ret=_new_data, native=_nat_new_data, event=True)})
+    methods={'__call__': Meth(ret=_new_data, native=_nat_new_data, event=True)},
+    native_factory=_native_data_class)
 
 
 def _eff_add(ex, ref, args, ret):
@@ -209,6 +227,11 @@ def d_error_protocol(self, trace, raised):
         (created(trace) or not trace.has('on_run_error'))
 
 
+def d_failed_attempt_stays_forced(self, old_self):
+    """C07: a forced task whose recomputation fails is still forced: the retry must not load the stale result"""
+    return (not old_self._forced) or self._forced
+
+
 def d_error_is_reraised(trace, raised):
     return raised == 'Opaque'
 
@@ -244,15 +267,16 @@ CONTRACTS = [
         callees=CALLEES,
         ensures={'returns_data': 'd_returns_data', 'forced_runs_once': 'd_forced_runs_once', 'info_after_save': 'd_info_after_save',
                  'run_result_processed': 'd_run_result_processed'},
-        ensures_raise={'error_protocol': 'd_error_protocol', 'no_info_on_error': 'd_no_info_on_error'},
+        ensures_raise={'error_protocol': 'd_error_protocol', 'no_info_on_error': 'd_no_info_on_error',
+                       'failed_attempt_stays_forced': 'd_failed_attempt_stays_forced'},
         ensures_all={'at_most_one_run': 'd_at_most_one_run', 'load_touches_nothing': 'd_load_touches_nothing',
                      'run_only_if_not_loadable': 'd_run_only_if_not_loadable', 'load_only_if_loadable': 'd_load_only_if_loadable',
                      'location': 'd_location', 'run_info_fresh': 'd_run_info_fresh', 'handler_balanced': 'd_handler_balanced'},
         clause_props={'returns_data': ['C01'], 'forced_runs_once': ['C07'], 'info_after_save': ['C18'],
-                      'run_result_processed': ['C01', 'C06'], 'error_protocol': ['C05'], 'no_info_on_error': ['C18'],
+                      'run_result_processed': ['C01', 'C06'], 'error_protocol': ['C05', 'C01'], 'no_info_on_error': ['C18'],
                       'at_most_one_run': ['C04', 'C07'], 'load_touches_nothing': ['C04'], 'run_only_if_not_loadable': ['C01', 'C04'],
                       'load_only_if_loadable': ['C01', 'C07'], 'location': ['C01'], 'run_info_fresh': ['C18'],
-                      'handler_balanced': ['C18']},
+                      'handler_balanced': ['C18'], 'failed_attempt_stays_forced': ['C07']},
         canary='d_canary', l0=['A-inspect', 'A-log'],
     ),
     Contract(
@@ -269,7 +293,7 @@ CONTRACTS = [
         ensures_raise={'error_protocol': 'd_error_protocol'},
         ensures_all={'at_most_one_run': 'd_at_most_one_run', 'load_touches_nothing': 'd_load_touches_nothing',
                      'handler_balanced': 'd_handler_balanced'},
-        clause_props={'returns_data': ['C01'], 'info_after_save': ['C18'], 'error_protocol': ['C05'], 'at_most_one_run': ['C04'],
+        clause_props={'returns_data': ['C01'], 'info_after_save': ['C18'], 'error_protocol': ['C05', 'C01'], 'at_most_one_run': ['C04'],
                       'load_touches_nothing': ['C04'], 'handler_balanced': ['C18']},
         l0=['A-inspect', 'A-log'],
     ),
